@@ -41,15 +41,70 @@ def c19_streams(tier, rng, ctx):
     sts.append(Stream("str-to-bool", "mirror", [line("str_to_bool", s) for s in strs]))
     short = list(all_strings(["a", "é", "b", "😀"], 3))
     pairs = [(x, y) for x in short for y in short] + [(random_string(rng, 10), random_string(rng, 3)) for _ in range(5000)]
-    sts.append(Stream("str-trim-suffix", "mirror", [line("str_trim_suffix", x, y) for x, y in pairs]))
+    # the model side is the statement itself (theorem trim_suffix_once: exactly one occurrence removed, or nothing)
+    sts.append(Stream("str-trim-suffix", "spec", [line("str_trim_suffix", x, y) for x, y in pairs]))
     sts.append(Stream("opt-has", "mirror", [raw("opt_has", o, x) for o in ["none", 0, 1, 2, 7] for x in [0, 1, 2, 7]]))
     tw = [(ord(c), s) for s in short + [random_string(rng, 12, alphabet=["a", "$", "}", "é", "b"], p_sep=0.0) for _ in range(3000)] for c in ["a", "$", "é"]]
     sts.append(Stream("take-while-p", "mirror", ["\t".join(["take_while_ne", str(c), hx(s)]) for c, s in tw]))
     sts.append(Stream("lowercase-scan", "spec", [raw("lowercase_scan")], [raw("true")],
                       rule="all 1 112 064 scalar values: to_lowercase can only decide the models' ASCII comparisons through ASCII letters"))
+    # defer: every program of up to 5 statements over {defer, action, nested scope, early return, panic} with up to
+    # two levels of nesting (exhaustive), plus random deeper ones
+    def progs(depth, n):
+        if n == 0:
+            yield []
+            return
+        for rest in progs(depth, n - 1):
+            for head in (["D"], ["L"], ["R"], ["P"]):
+                yield head + rest
+            if depth > 0:
+                for m in range(0, 3):
+                    for inner in progs(depth - 1, m):  # inner scopes of up to two statements
+                        yield [["{"] + inner + ["}"]] + rest
+
+    def render(p, c):
+        out = []
+        for t in p:
+            if isinstance(t, list):
+                out.append("{")
+                out += render(t[1:-1], c)
+                out.append("}")
+            elif t in ("D", "L"):
+                c[0] += 1
+                out.append("%s%d" % (t, c[0]))
+            else:
+                out.append(t)
+        return out
+    dl = []
+    for n in range(0, 4 if tier == "quick" else 5):
+        for p in progs(1, n):
+            dl.append(raw("defer", " ".join(render(p, [0]))))
+    for p in progs(2, 1):
+        dl.append(raw("defer", " ".join(render(p, [0]))))
+
+    def rprog(depth):
+        out = []
+        for _ in range(rng.randint(0, 5)):
+            k = rng.random()
+            if k < 0.35:
+                out.append("D")
+            elif k < 0.6:
+                out.append("L")
+            elif k < 0.68:
+                out.append("R")
+            elif k < 0.76:
+                out.append("P")
+            elif depth > 0:
+                out.append(["{"] + rprog(depth - 1) + ["}"])
+        return out
+    for _ in range(3000 if tier == "quick" else 30000):
+        dl.append(raw("defer", " ".join(render(rprog(4), [0]))))
+    sts.append(Stream("defer-programs", "spec", dl, exhaustive=True,
+                      nontrivial=lambda l, o: "D" in l,
+                      rule="every program of up to %d statements over {defer, action, nested scope of up to two statements, early return, panic}, all single statements with "
+                           "two levels of nesting, and random programs nested up to four deep: the log of actions and deferred closures in execution order and the exit kind, "
+                           "real defer(..) guards on the call stack vs the scope model" % (3 if tier == "quick" else 4)))
     return sts
-
-
 PROPS["C19"] = {
     "streams": c19_streams,
     "rule": "exhaustive sequence lengths x index pairs plus isize corner values; strings over an alphabet with multi-byte and case-folding characters; "
